@@ -600,3 +600,8 @@ M("m107", "C03", "R3.3", BATCH, "        self.n_pad = total_size - n_states\n", 
 M("m108", "C20", "R20.9", LOGGING, "    if verbose < 0 or verbose > 4:", "    if verbose < 0 or verbose > 3:", "verbosity 4 (accepted by every validator) is rejected in the constructor")
 M("m109", "C20", "R20.9", LOGGING, "        3: \"DEBUG\",  # Show detailed progress\n        4: \"TRACE\",  # Show everything", "        3: \"TRACE\",  # Show detailed progress\n        4: \"DEBUG\",  # Show everything", "levels 3 and 4 swapped")
 M("m110", "C20", "R20.9", SOLVER, "            valid_levels = {\"ERROR\": 0, \"WARNING\": 1, \"INFO\": 2, \"DEBUG\": 3, \"TRACE\": 4}", "            valid_levels = {\"ERROR\": 0, \"WARNING\": 1, \"INFO\": 2, \"DEBUG\": 4, \"TRACE\": 3}", "string levels crossed")
+M("m111", "C20", "R20.10", PI, "    jax_double_precision: bool = True\n    verbose: int = 2\n    checkpoint_dir: str | None = None\n    checkpoint_frequency: int = 0\n    max_checkpoints: int = 1\n    enable_async_checkpointing: bool = True\n    max_eval_iter",
+  "    jax_double_precision: bool = False\n    verbose: int = 2\n    checkpoint_dir: str | None = None\n    checkpoint_frequency: int = 0\n    max_checkpoints: int = 1\n    enable_async_checkpointing: bool = True\n    max_eval_iter",
+  "PI alone defaults to single precision")
+M("m112", "C20", "R20.10", MIRJ, "    useful_life_at_arrival_distribution_c_0: tuple[float, ...] = (1.0, 0.5)", "    useful_life_at_arrival_distribution_c_0: tuple[float, ...] = (1.0, 0.5, 0.25)",
+  "Mirjalili default c_0 inconsistent with the default useful life", survives="no")
